@@ -154,6 +154,7 @@ Inductive G :=
 | Pratt (atom : G) (ops : list pop) (* atom.pratt(ops): operators are tried in list order *)
 | GroupArr (gs : list G)            (* group([..; N]): the array form (MaybeUninit storage, see Model/Ledger.v) *)
 | NestedIn (a : G)                  (* a.nested_in(select_ref! { Group(children) => children as input }) *)
+| ExtWrap (a : G)                   (* Ext(P) with ExtParser::parse = inp.parse(&a) and a separate ExtParser::check = inp.check(&a) *)
 with pop :=
 | PInfix (rassoc : bool) (bp : nat) (og : G) (k : nat)
 | PPrefix (bp : nat) (og : G) (k : nat)
